@@ -41,6 +41,12 @@ def driver(spec):
             out["calls"].append({"ok": False, "exc": type(e).__name__})
         return None
     kw = dict(n_jobs=2, max_nbytes=1000, backend=spec.get("backend", "loky"))
+    if spec.get("relative_temp"):
+        # the tracker is started from one working directory, the call is made from another one with a RELATIVE temp_folder
+        from joblib.externals.loky.backend import resource_tracker
+        resource_tracker.ensure_running()
+        os.makedirs(os.path.join(d, "cwd2"), exist_ok=True); os.chdir(os.path.join(d, "cwd2"))
+        kw["temp_folder"] = "reltmp"
     if sc == "plain":
         call(Parallel(**kw), "use")
     elif sc == "managed_two_calls":
